@@ -107,6 +107,12 @@ def _cases(tier, seed):
                 cs.append({'scen': 'tt_scalar', 's': {'op': op, 'N': N, 'R': R, 'dtype': 'float64', 'skind': 'int', 'ival': iv}})
         for op in ('neg', 'pos'):
             cs.append({'scen': 'tt_scalar', 's': {'op': op, 'N': N, 'R': R, 'dtype': 'float64', 'skind': 'none'}})
+    # one-element tensors of integer / single-precision dtype with concrete values (3, [7], 3.0f, [0.1f]) on double-precision operands
+    for N, R in structs[:2]:
+        for op in ('div', 'mul', 'add', 'sub'):
+            for tval, tdt in ((3, 'int64'), ([7], 'int64'), (3.0, 'float32'), ([0.1], 'float32')):
+                cs.append({'scen': 'tt_scalar', 's': {'op': op, 'N': N, 'R': R, 'dtype': 'float64', 'skind': 'tensor_concrete', 'tval': tval, 'tdtype': tdt}})
+    cs.append({'scen': 'tt_scalar', 's': {'op': 'div', 'N': [2, 3], 'R': [1, 2, 1], 'dtype': 'complex128', 'skind': 'tensor_concrete', 'tval': 3, 'tdtype': 'int64'}})
     for dt in ('complex128', 'float32'):
         for op in ('add', 'sub', 'mul', 'rmul', 'div', 'neg'):
             s = {'op': op, 'N': [2, 3], 'R': [1, 2, 1], 'dtype': dt, 'skind': 'float' if op != 'neg' else 'none'}
